@@ -1285,6 +1285,17 @@ Plan gen_c09(const std::string &profile, uint64_t seed, const JV &opts) {
 		// a peer on the local socket that closes is reported as readable + hang-up (that is what Linux does for AF_UNIX), a TCP peer as readable only
 		if (x < 0.04 || (gc->tr == "uds" && x < 0.09)) { Op o = g.mk("close", gc->c); o.a.set("how", JV::str(gc->tr == "uds" ? "hup" : "fin")); o.dt = r.chance(0.5) ? 0 : dt(); g.p.ops.push_back(o); gc->alive = false; for (auto it = g.owner_of.begin(); it != g.owner_of.end();) if (it->second == gc->c) it = g.owner_of.erase(it); else ++it; continue; }
 		if (x < 0.55) { size_t before = g.p.ops.size(); g.op_request(); for (size_t k = before; k < g.p.ops.size(); k++) { g.p.ops[k].dt = dt(); g.p.ops[k].hold = false; } continue; }
+		if (x < 0.58 && g.p.ops.size() < 400) {
+			// many short requests of one connection in a row: more bytes than several read buffers hold
+			size_t target = (size_t)maxmsg * (3 + r.below(12)), total = 0; int n = 0;
+			while (total < target && n < 300) {
+				JV pr = JV::obj(); JV q;
+				switch (r.below(3)) { case 0: q = g.request("info", JV::obj(), false); break; case 1: pr.set("name", JV::str("b" + std::to_string(n))); q = g.request("config", pr, false); break; default: pr.set("path", JV::str(g.pick_path())); pr.set("value", g.fresh_value()); q = g.request("change", pr, false); break; }
+				Op bo = g.mk("send", gc->c); bo.a.set("msg", q); bo.a.set("burst", JV::boolean(true)); bo.dt = n == 0 ? dt() : 0; bo.hold = false;
+				g.p.ops.push_back(bo); total += q.dump().size() + 6; n++;
+			}
+			continue;
+		}
 		Op o = g.mk("send", gc->c);
 		bool raw = gc->tr != "ws";
 		double y = r.unit();
@@ -1620,6 +1631,14 @@ Plan derive_b(const Plan &a) {
 			o.hold = false;   // the order in which peers come into being (accept, WebSocket request line) is part of the preserved order: it decides the order of initial notifications
 			// ... but two connections to the same listening socket may well be queued behind one readiness event: the queue keeps their order
 			if (i + 1 < a.ops.size() && a.ops[i + 1].k == "connect" && a.ops[i + 1].dt == 0 && a.ops[i + 1].a.gets("tr") == o.a.gets("tr") && a.ops[i + 1].a.gets("ip") == o.a.gets("ip") && o.a.gets("tr") != "ws" && r.chance(0.7)) o.hold = true;
+			b.ops.push_back(o);
+			continue;
+		}
+		if (o.k == "send" && o.a.getb("burst")) {
+			// a run of complete messages of ONE connection with nothing in between: the canonical execution hands them over one by one, this one all at once
+			// (a pipelining client, or a daemon that was busy meanwhile); the order of complete messages is the same
+			bool more = i + 1 < a.ops.size() && a.ops[i + 1].k == "send" && a.ops[i + 1].a.getb("burst") && a.ops[i + 1].c == o.c && a.ops[i + 1].dt == 0;
+			o.hold = more; o.a.put("seg", JV()); o.a.put("gap", JV::num(0));
 			b.ops.push_back(o);
 			continue;
 		}
